@@ -25,6 +25,13 @@ EXPLANATION = ('Link-by-link path rules on the failure chain: every Resource::tu
                'every actor of the host, exit() cancels and finishes what the victim waits for, on_exit callbacks receive wannadie().')
 
 
+# confirmed by reading and by replay (kill of an actor blocked in ConditionVariable::wait under simgrid-mc: no crash); one reason per symbol
+R7_EXCEPTIONS = {
+    'ConditionVariableAcquisitionImpl': 'the unchecked use is in the model-checking branch only: under the checker the wait simcall is fired once the acquisition is granted, '
+                                        'so finish() runs with a live issuer, and a killed waiter has no registered simcall to finish',
+}
+
+
 def sname(t):
     """State enumerator name of a term like ('enum', '...State::FAILED', v)"""
     if t and t[0] == 'enum':
@@ -137,7 +144,11 @@ def run(ctx):
             unknown = set(d) - {'INITED', 'STARTED', 'IGNORED'}
             ctx.check(failed == want and fin == want and not unknown, 'R2', '%s: state tests %s' % (f['q'].replace(RES, '').split('<')[0], d), where(f),
                       'set FAILED: %s, finish time stamped: %s (expected %s)' % (failed, fin, want), key='R2|cancel_actions|state filter')
-        ctx.require(len(rows) >= 3, 'R2', '%s: per-variable paths not recognised' % f['q'])
+        tested = set(k_ for lits, _ in rows.items() for k_, _v in lits)
+        missing = {'INITED', 'STARTED', 'IGNORED'} - tested
+        ctx.check(not missing, 'R2', '%s: the live states INITED, STARTED and IGNORED are all failed' % f['q'].replace(RES, '').split('<')[0], where(f),
+                  ('actions in state %s survive the failure of their resource' % sorted(missing)) if missing else '', key='R2|cancel_actions|live states')
+        ctx.require(len(rows) >= 2, 'R2', '%s: per-variable paths not recognised' % f['q'])
 
     # ---- R3 ended actions are handled ---------------------------------------------------------------------------------------------------------
     ctx.rule('R3', 'run() handles ended actions after every sub-round and every timer batch; handle_ended_actions drains failed and done actions of every model and finishes their activities', 4)
@@ -298,10 +309,13 @@ def run(ctx):
             # from the case label to the answer: an exception is stored on every path
             ok = True
             npth = 0
+            doomed = None
             for p in v.paths(start=labels[s_], max_visits=1):
                 evs = v.path_events(p)
                 exc = False
                 for e in evs:
+                    if e.kind == 'call' and e.q.endswith('ActorImpl::set_wannadie') and e.obj is not None and e.obj[0] == 'var' and e.obj[2] == 'issuer':
+                        doomed = e
                     if e.kind == 'assign' and e.lhs[0] == 'field' and e.lhs[2].endswith('::exception_'):
                         exc = True
                     if e.kind == 'call' and e.q.endswith('exception_ptr::operator=') and e.obj is not None and e.obj[0] == 'field' and \
@@ -314,6 +328,9 @@ def run(ctx):
                         ok = ok and exc
                         break
             ctx.check(ok and npth >= 1, 'R4', '%s::finish: state %s stores an exception before the answer' % (cls, s_), where(f), '%d path(s)' % npth, key='R4|%s|exception %s' % (cls, s_))
+            ctx.check(doomed is None, 'R4', '%s::finish: state %s reports to the waiter instead of killing it' % (cls, s_), where(f, doomed.line if doomed else None),
+                      'issuer->set_wannadie(): a live waiter (unregister_first_simcall already filters actors whose own host is off) is killed silently, the exception stored for it is never seen'
+                      if doomed else '', key='R4|%s|waiter killed %s' % (cls, s_))
         # default asserts DONE
         if default_succ is not None:
             okd = False
@@ -436,6 +453,10 @@ def run(ctx):
         if not any(s_[2] for s_ in sts):
             continue
         badl = sorted(set(s_[3] for s_ in sts if s_[3]))
+        if cls in R7_EXCEPTIONS and badl:
+            ctx.notes.append('R7 exception: %s::finish line %s -- %s' % (cls, badl, R7_EXCEPTIONS[cls]))
+            ctx.holds('R7', '%s::finish tests the issuer before using it outside its model-checking branch' % cls, where(f), 'listed exception: ' + R7_EXCEPTIONS[cls])
+            continue
         ctx.check(not badl, 'R7', '%s::finish tests the issuer before using it' % cls, where(f, badl[0] if badl else None),
                   'unregister_first_simcall() returns nullptr for exiting/dying actors (its siblings test it); here the result is used unchecked at line %s' % badl if badl else '',
                   key='R7|%s|null issuer' % cls)
